@@ -610,7 +610,7 @@ async fn drive(c: &Case) -> CheckResult {
         // not a valid identifier for the OPEN decoder (RFC 4271 §6.2): outside "acceptable OPEN"
         return Ok(CaseInfo::trivial().class("driver/remote-identifier-not-unicast"));
     }
-    let src = IpAddr::V4(Ipv4Addr::new(127, 0, 7, 2));
+    let src = crate::props::wirepeer::fresh_loopback();
     let rig = AdmitRig::new(LOCAL_AS, None).await.map_err(|e| Failure::new("harness", e))?;
     rig.set_router_id(Ipv4Addr::from(local_id)).await;
     let cfg = NeighborCfg { addr: src, remote_asn: REMOTE_AS, local_asn: 0, rs_client: false, rr_client: false, cluster_id: None, admin_down: false, holdtime: 90, families: vec![(packet::Family::IPV4, 0)], prefix_limit: None, gr: None, llgr: None };
